@@ -304,6 +304,11 @@ func runC12(e *emitter, tier string, seed uint64) {
 		for k := 1 + r.intn(8); k > 0; k-- {
 			u := c12GenUse(r)
 			which := r.intn(nctx)
+			if r.chance(1, 6) {
+				// a nonce set part-way through (a middleware below the one that initialised the context): the context
+				// stays the context
+				ctxs[which] = templ.WithNonce(ctxs[which], "n0nce")
+			}
 			do := u.do
 			if r.chance(1, 3) {
 				// the use happens inside the child block of a component call (also the very first use of a context): the
@@ -397,6 +402,12 @@ func runC12(e *emitter, tier string, seed uint64) {
 			sv = "-"
 		}
 		e.emit(fmt.Sprintf("css %d %s", i, regS), "stylesheet", regS, sv)
+	}
+	// 2b. the same expression text at two elements of one template: each element that is rendered brings its definitions
+	for _, canEdit := range []bool{false, true} {
+		var sb strings.Builder
+		tmpl.Toolbar(canEdit).Render(context.Background(), &sb)
+		e.emit(fmt.Sprintf("before toolbar %v", canEdit), "before", "toolbar-"+tf(canEdit), hx("<form"), hx("function __templ_fixA")+";"+hx("<style"), hx(sb.String()))
 	}
 	// 3. hoisting in generated code (both branches of conditional attributes, nested conditionals)
 	for _, c := range []bool{false, true} {
